@@ -129,6 +129,7 @@ type tracer struct {
 	pend      [1030]*opRec
 	steps     []stepRec
 	survivor  *frame
+	top       *frame
 	maxDepth  int
 	failed    map[string]int // failure kind -> count
 	injected  bool
@@ -211,6 +212,7 @@ func (t *tracer) CaptureEnd(output []byte, gasUsed uint64, _ time.Duration, err 
 	}
 	if len(t.frames) > 0 {
 		top := t.frames[0]
+		t.top = top
 		if err != nil {
 			if top.fail == "" {
 				top.fail = classify(err)
